@@ -11,7 +11,7 @@ A, B, C = "/'g'/'a'", "/'g'/'b'", "/'h'/'c'"
 
 F4_OPTIONS = ['abs', 'nod', (1, 1), (2, 1), (1, 2), (2, 2), (3, 2), (2, 3), (4, 3)]
 F4_OPTIONS_SMALL = ['abs', 'nod', (2, 1), (1, 2), (2, 3), (4, 3)]
-F4_KINDS = ['int', 'intswap', 'il', 'str', 'strb', 'ts', 'daqmx']
+F4_KINDS = ['int', 'intswap', 'il', 'str', 'strb', 'ts', 'daqmx', 'be', 'mixed-il']
 
 
 def daqmx_enc(n, scalers, widths, kind='fc', dtype='DaqMxRawData'):
@@ -33,6 +33,14 @@ def f4_segment(kind, opt, si=0):
         if si % 2:
             objs = objs[::-1]
         return G.seg(objs, chunks=chunks)
+    if kind == 'be':        # like 'int', every segment big-endian
+        s_ = f4_segment('int', opt, si)
+        s_['big'] = True
+        return s_
+    if kind == 'mixed-il':  # interleaved, byte order alternating from segment to segment
+        s_ = f4_segment('il', opt, si)
+        s_['big'] = bool(si % 2 == 0)
+        return s_
     if kind == 'int':
         objs = [(B, ['FULL', 'Int16', n + 1])]
         if present:
@@ -164,9 +172,11 @@ def f6_files(tier):
     out = []
     paths = [A, B]
     chunk_opts = (1, 2, 3)
-    endians = (False,) if tier == 'quick' else (False, True)
+    endians = (False, True)
     for big in endians:
         for ename, elems in F6_ELEMS.items():
+            if big and tier == 'quick' and ename not in ('f32+ts', 'str+i32'):
+                continue
             objs = [(paths[i], _f6_enc(t, n)) for i, (t, n) in enumerate(elems)]
             objs2 = [(paths[i], _f6_enc(t, n + 1)) for i, (t, n) in enumerate(elems)]
             sized = all(t != 'String' for t, _ in elems)
@@ -198,6 +208,8 @@ def f6_files(tier):
                         out.append(('%s/%s/%s/x%d/%s' % (ename, layout, sname, chunks, 'BE' if big else 'LE'), h))
         # DAQmx: one and two raw buffers
         for nbuf in (1, 2):
+            if big and tier == 'quick' and nbuf == 1:
+                continue
             widths = [6] if nbuf == 1 else [6, 4]
             sc_a = [(3, 0, 0, 0, 0), (2, 0, 4, 0, 1)]
             sc_b = [(5, 0, 1, 0, 0)] if nbuf == 1 else [(3, 1, 1, 0, 0)]
